@@ -33,7 +33,7 @@ type HookSpec struct {
 }
 
 type Request struct {
-	PathKind string `json:"path_kind"` // registered unknown-conf unknown-webhook extra-segment root
+	PathKind string `json:"path_kind"` // registered unknown-conf unknown-webhook extra-segment root look-alike
 	Target   int    `json:"target"`    // index into the flattened binding list (for registered / extra-segment)
 	Body     string `json:"body"`      // valid missing-request not-json
 	Exit     int    `json:"exit"`
@@ -88,7 +88,7 @@ func gen(t *rapid.T) Case {
 	nr := rapid.IntRange(1, 6).Draw(t, "nr")
 	for i := 0; i < nr; i++ {
 		r := Request{}
-		r.PathKind = rapid.SampledFrom([]string{"registered", "registered", "registered", "registered", "unknown-conf", "unknown-webhook", "extra-segment", "root"}).Draw(t, "pk")
+		r.PathKind = rapid.SampledFrom([]string{"registered", "registered", "registered", "registered", "unknown-conf", "unknown-webhook", "extra-segment", "root", "look-alike"}).Draw(t, "pk")
 		r.Target = rapid.IntRange(0, total-1).Draw(t, "target")
 		r.Body = rapid.SampledFrom([]string{"valid", "valid", "valid", "valid", "valid", "missing-request", "not-json"}).Draw(t, "body")
 		r.Exit = rapid.SampledFrom([]int{0, 0, 0, 1, 2}).Draw(t, "exit")
@@ -183,6 +183,19 @@ func runCase(c Case) (ev.Info, error) {
 			id = id + "/extra"
 		case "root":
 			path = "/"
+		case "look-alike":
+			// the binding's name as written (dots, capitals, blanks, underscores), not the id the path was registered
+			// under: registered only if it happens to be a registered id itself
+			raw := strings.ReplaceAll(tgt.b.Name, " ", "%20")
+			path = "/hooks/" + raw
+			_, registered = owners[tgt.b.Name]
+			id = tgt.b.Name
+			if strings.ContainsAny(tgt.b.Name, " /") {
+				// (blanks and slashes change the path structure: covered by the other kinds)
+				path = "/hooks/" + safeID(tgt.b.Name)
+				registered = true
+				id = safeID(tgt.b.Name)
+			}
 		}
 		beh := vh.Behaviour{Exit: r.Exit, Admission: responseFile(r.Response)}
 		for _, h := range c.Hooks {
@@ -322,7 +335,7 @@ func runCase(c Case) (ev.Info, error) {
 	return info, nil
 }
 
-const rule = "1-3 scripted hooks with generated kubernetesValidating/kubernetesMutating bindings (names with dots, capitals, spaces, slashes, underscores; collisions after URL sanitising and across hooks included; a third of the bindings with the group option) loaded by the real operator assembly; 1-6 AdmissionReview requests through the real HTTP router: path {registered, unknown configuration id, unknown webhook id, extra segment, root} x body {valid, missing request, not JSON} x hook exit {0,1,2} x response file {empty, allowed, allowed+message+warnings+patch, denied, {}, truncated, wrong type, whitespace}; oracle: decision table for allowed=true, uid echo, verdict relay (warnings, patch, patchType, denial message), and the hook log shows the hook/binding/type that registered the path. Non-trivial: a request that must not be allowed."
+const rule = "1-3 scripted hooks with generated kubernetesValidating/kubernetesMutating bindings (names with dots, capitals, spaces, slashes, underscores; collisions after URL sanitising and across hooks included; a third of the bindings with the group option) loaded by the real operator assembly; 1-6 AdmissionReview requests through the real HTTP router: path {registered, unknown configuration id, unknown webhook id, extra segment, root, the binding's name as written instead of its sanitised id} x body {valid, missing request, not JSON} x hook exit {0,1,2} x response file {empty, allowed, allowed+message+warnings+patch, denied, {}, truncated, wrong type, whitespace}; oracle: decision table for allowed=true, uid echo, verdict relay (warnings, patch, patchType, denial message), and the hook log shows the hook/binding/type that registered the path. Non-trivial: a request that must not be allowed."
 
 func TestAdmission(t *testing.T) {
 	ev.Main(t, ev.Spec[Case]{Property: "C14", Part: "admission", Rule: rule, Gen: gen, Run: runCase, Journal: true})
